@@ -219,8 +219,12 @@ def delay_model_input(pr, info, m, x, lay, d):
         h = hm.get(v)
         hists.append(None if h is None else {"t": [fr(t) for t in h["times"]], "v": [fr(q) for q in h["values"]]})
     oc, osign = info.canon(d["out"])
+    # the receiving variable goes to the model by NAME together with the alias relation of the spec: the model resolves
+    # it (`DelayProb.named`); "out" / "outNeg" (the harness' own resolution) are only a cross-check of the returned pair
     return {"mp": mp, "hists": hists, "allHistTimes": [[fr(t) for t in h["times"]] for h in hm.values()],
             "expr": expr_wire(info, d["expr"]), "out": cols.index(oc), "outNeg": osign < 0,
+            "outName": d["out"], "colNames": cols,
+            "aliases": [{"name": a["name"], "of": a["of"], "neg": a["sign"] < 0} for a in spec["aliases"]],
             "tau": tau_wire(info, d["tau"])}
 
 
@@ -496,6 +500,13 @@ def opt_judge(c, item, outs):
         c.disagree("incomplete-history decision (model vs numpy oracle)", case, mo0["incomplete"], inc_o)
     if not same(mo0["nominal"], nomrow):
         c.disagree("row scaling", case, mo0["nominal"], nomrow)
+    # the model resolved the receiving variable's NAME through the alias relation: cross-check with the code's own relation
+    cols = spec["states"] + spec["algs"] + [cc["name"] for cc in spec["controls"]]
+    rc, rs = pr.alias_relation.canonical_signed(d["out"])
+    if "out" in mo0 and (mo0["out"], mo0["outNeg"]) != (cols.index(rc) if rc in cols else -1, rs < 0):
+        c.disagree("alias resolution of the receiving variable (model vs alias_relation.canonical_signed)", case,
+                   [mo0["out"], mo0["outNeg"]], [rc, rs])
+    c.hit("opt:receiver-named-by-alias" if rc != d["out"] else "opt:receiver-named-canonically")
 
     def rows_of(o):
         return [float(unfr(r)) if r not in ("nan", "raise") else NAN for r in o["rows"]]
@@ -699,9 +710,11 @@ def run(c):
         "history series end at t0",
         "pymoca turns `delay(expr, tau)` into delay states/arguments (not modelled; observed through get_var)",
     ]
-    from .translate_c16 import gen_delay_rows
+    from .translate_c16 import gen_delay_hist, gen_delay_rows
 
-    c.prove(extra=gen_delay_rows(c))  # + delay buffer / residuals / delayed-feedback rows translated from the source
+    # + delay buffer / residuals / delayed-feedback rows, and the history assembly / delay durations / row scaling /
+    # named receiving variable of the delayed-feedback block, translated from the source
+    c.prove(extra=gen_delay_rows(c) + gen_delay_hist(c))
     rng = c.rng
     n = c.n(40, 500)
     batch = [opt_instance(c, spec, rng) for spec in corpus()]
@@ -740,9 +753,9 @@ def run(c):
 
 
 def replay(c, rp):
-    from .translate_c16 import gen_delay_rows
+    from .translate_c16 import gen_delay_hist, gen_delay_rows
 
-    c.prove(extra=gen_delay_rows(c))
+    c.prove(extra=gen_delay_rows(c) + gen_delay_hist(c))
     for f in (rp.get("failures", []) + rp.get("correspondence_disagreements", []))[:5]:
         print("replaying", f["what"])
         spec = f["case"].get("spec")
